@@ -186,9 +186,12 @@ func (r *Run) Step(op SOp) *vlib.Violation {
 	m := r.M
 	preP := r.playable()
 	preD := seatID(m.Dealer())
-	if preD < 0 && r.lastD >= 0 {
-		preD = r.lastD // a manager that has forgotten where the button was still owes the move from there
-		r.Facts["dealer-forgotten"] = true
+	if r.lastD >= 0 && preD != r.lastD {
+		// the move is owed from the button of the last hand that was dealt, wherever
+		// the manager's own pointer has got to meanwhile (forgotten, or moved by a
+		// move that was refused)
+		preD = r.lastD
+		r.Facts["dealer-pointer-moved-without-a-hand"] = true
 	}
 	q := 0
 	for i := 0; i < r.Max; i++ {
